@@ -189,6 +189,16 @@ EXTRA_SEEDS += [
     "{{ '%*s' | t }}{{ '%.99999999999f' | t }}{{ '%c' | t }}{{ '%(a' | t }}",
 ]
 
+# settings the i18n filters read from the render context, as hostile strings
+LOCALE_JUNK = ["xx-YY", "en-BR", "de-YY", "pt-001", "qq-US", "zh-Hant-YY", "en-US", "nosuchthing", "zz", "en_US_POSIX", "",
+               "-", "_", "a-", "-a", "en--US", "x" * 60, "C", "POSIX", "und", "root", 5, None, True, ["en"], {"a": 1}]
+I18N_TEMPLATE = ("{{ 1.5 | currency }}{{ 1234.5 | decimal }}{{ 'March 5 2020' | datetime }}{{ 3 | unit: 'length-meter' }}"
+                 "{{ '1,5' | decimal }}{{ 1.5 | money }}{{ 1.5 | money_without_currency }}")
+I18N_CASES = [{"template": I18N_TEMPLATE, "data": {key: v}}
+              for key in ("locale", "input_locale", "timezone", "input_timezone", "currency_code", "datetime_format",
+                          "decimal_format", "currency_format", "unit_format", "unit_length")
+              for v in LOCALE_JUNK]
+
 DECIMAL_CASES = [
     {"template": "{% if (1..5) contains x %}y{% endif %}{% if x in (1..5) %}y{% endif %}{{ x | plus: 1 }}{{ x | round }}"
                  "{{ x | abs }}{% for i in (1..x) limit: 1 %}{{ i }}{% endfor %}{{ nums[x] }}{{ x | at_most: 2 }}",
@@ -407,7 +417,7 @@ class C02(Prop):
                 yield {"kind": "text", "src": src[:k], "data": t.get("data") or {},
                        "templates": t.get("templates") or {}, "mode": "sync"}
 
-        for ti, t in enumerate(DEEP_CASES + DECIMAL_CASES):
+        for ti, t in enumerate(DEEP_CASES + DECIMAL_CASES + I18N_CASES):
             for mode in ("sync", "async"):
                 yield {"kind": "text", "src": t["template"], "data": t["data"], "templates": t.get("templates") or {},
                        "mode": mode}
